@@ -1,6 +1,6 @@
 """C02 -- edge errors and chi^2 implement the documented measurement model (vs. the checker's reference model)."""
 from ..poly import Poly
-from ..interp import Arr, Pose, Obj, sym_vec, sym_mat, PI
+from ..interp import ga, sa, Arr, Pose, Obj, sym_vec, sym_mat, PI
 from ..algebra import (CONFIGS, CDIM, cfg_name, run_obligation, run_tasks, record, ObFail, require_same, nterms, sym_config,
                        make_edge, ref_R_t, ref_rot, ham, conj, matvec, transpose, matmul, no_bad_wrap)
 
@@ -130,7 +130,7 @@ def graph_sum_obligation(k):
         got = it.call_method(g, "calc_chi2", [])
         exp = sum((Poly.var("chi2_%d" % i) for i in range(k)), Poly())
         require_same(got, exp, "Graph.calc_chi2 over %d edges is not the sum of the edges' chi^2" % k)
-        cached = g.fields.get("_chi2")
+        cached = ga(g, "_chi2", None)
         if not isinstance(cached, Poly) or cached != exp:
             raise ObFail("Graph.calc_chi2 does not store the returned value in _chi2")
         return dict(edges=k)
